@@ -243,6 +243,14 @@ func (pr *Projector) Project(m map[string]any) Proj {
 			}
 		}
 	}
+	if u.GetKind() == "Widget" {
+		// a Widget used as an ObjectTemplate source: the value read from .status.a
+		if st, ok := m["status"].(map[string]any); ok {
+			if a, ok := st["a"].(string); ok {
+				p.Data = map[string]string{"a": a}
+			}
+		}
+	}
 	if u.GroupVersionKind().Group == pkoGroup {
 		p.CR = projectCR(&u)
 	}
